@@ -46,6 +46,11 @@ def check(model: Model, rep: Report, tier: str):
     from .c05 import k10
     with rep.isolated():
         k10(model, rep, "C13.M5")
+    from .c07 import a9
+    with rep.isolated():
+        a9(model, rep, "C13.M6")
+    rep.rules_text["C13.M6"] = ("every round of the multi-round circuit is unrolled and flattened before it is nested: apply_modifiers / flatten hand back the SAME structure object "
+                                "the round's measurements index (= C07.A9) -- a rebuilt structure leaves their registries behind and the nested copies report index -1")
     with rep.isolated():
         share_rule(rep, model, x4, "C13.M4", "what the experiment kernel reports for a block of n rounds is read from THE kernel of that block (selected by its own round count, over the "
                                              "whole kernel list) and translated per experiment repetition by the cycle length (= C12.X4): a getter that answers with another block's "
